@@ -133,7 +133,7 @@ def c_form(t):
 CASE_HEADER = '''From Coq Require Import String.
 From Coq Require Import List ZArith Bool.
 From Verif.C13 Require Import Model.
-From Verif.gen Require Import C13_ExprKeys.
+From @GENLIB@ Require Import C13_ExprKeys.
 Import ListNotations.
 Open Scope string_scope.
 Open Scope Z_scope.
@@ -375,6 +375,16 @@ def freshness_compare(ship, regen):
 
 # ---------------------------------------------------------------------------
 
+def genlib(ctx):
+    """logical path of this run's directory of generated files (core.Ctx.genrel, e.g. gen/r1234)"""
+    rel = getattr(ctx, 'genrel', 'gen')
+    return 'Verif.' + rel.replace(os.sep, '.').replace('/', '.')
+
+
+def eval_many(ctx, files, timeout=900):
+    return ctx.coq_eval_many([(n, t.replace('@GENLIB@', genlib(ctx))) for n, t in files], timeout=timeout)
+
+
 def run_chunks(ctx, mode, specs, nproc=8, extra=None, timeout=1500):
     chunks = [specs[i::nproc] for i in range(nproc)]
     chunks = [c for c in chunks if c]
@@ -404,9 +414,9 @@ def gen_table(ctx):
         ctx.broken.append('generated table does not compile: ' + out[-500:])
         return tr, False
     allok = True
-    head = 'From Coq Require Import String.\nFrom Coq Require Import List ZArith Bool.\nFrom Verif.C13 Require Import Model Spec.\nFrom Verif.gen Require Import C13_ExprKeys.\n'
+    head = 'From Coq Require Import String.\nFrom Coq Require Import List ZArith Bool.\nFrom Verif.C13 Require Import Model Spec.\nFrom @GENLIB@ Require Import C13_ExprKeys.\n'
     files = [('C13_obl_' + name, head + T.obligation_text(name, stmt)) for name, stmt in obl]
-    res = ctx.coq_eval_many(files, timeout=300)
+    res = eval_many(ctx, files, timeout=300)
     for (name, stmt), (fname, ok, out) in zip(obl, res):
         ctx.obligations += 1
         ctx.checker_cmds.append('cd coq && coqc -R . Verif gen/%s.v' % fname)
@@ -422,6 +432,8 @@ def gen_table(ctx):
                     for a, t in c['attrs']:
                         if a not in k:
                             bad.append('%s.%s is not in hash_key' % (cn, a))
+                        elif k[a] == 'EOther':
+                            bad.append('%s.%s is keyed through a rendering that is not known to be injective (neither the value nor repr()/hex())' % (cn, a))
                         elif t in ('TFloat', 'UNKNOWN') and k[a] != 'ERepr':
                             bad.append('%s.%s (%s) is keyed by its hash, which is not injective' % (cn, a, 'float' if t == 'TFloat' else 'unknown domain'))
                 detail = '; '.join(bad)
@@ -489,6 +501,9 @@ def check_forms_property(ctx, specs, results):
     return ncoll
 
 
+COARSE = set()
+
+
 def tie_keys(ctx, specs, results):
     """Model form_key equality <-> implementation hash equality, pairwise inside each file."""
     ok = [(s, r) for s, r in zip(specs, results) if r['status'] == 'Ok' and r.get('tree') is not None]
@@ -533,7 +548,7 @@ def tie_keys(ctx, specs, results):
     selftest = None
     if chunks and len(chunks[0]) >= 2:
         selftest = ('C13_selftest', text(chunks[0], perturb=True))
-    res = ctx.coq_eval_many([(f[0], f[1]) for f in files] + ([selftest] if selftest else []), timeout=900)
+    res = eval_many(ctx, [(f[0], f[1]) for f in files] + ([selftest] if selftest else []), timeout=900)
     npairs = 0
     dis = []
     for (name, ok_, out), f in zip(res, files):
@@ -577,10 +592,12 @@ def tie_keys(ctx, specs, results):
             (s1, r1), (s2, r2) = x, y
             diff = first_difference(r1['tree'], r2['tree'])
             sig = 'tie:key-relation:%s' % diff
+            same_impl = r1['hash'] == r2['hash']
+            if diff in COARSE and not same_impl:
+                continue    # the model knowingly identifies values of an attribute keyed through an unknown rendering
             if sig in seen:
                 continue
             seen.add(sig)
-            same_impl = r1['hash'] == r2['hash']
             ctx.broken.append('model key and vf.hash() disagree on a pair differing in %s' % diff)
             # is it a failing input of the property?  only if the implementation says equal and the code differs
             viol = same_impl and (r1['code']['0'] != r2['code']['0'] or r1['code']['1'] != r2['code']['1'])
@@ -707,7 +724,7 @@ def cache_sequences(ctx, specs, results, tr_ok):
                  '  match l with [] => [] | (rs, h) :: l\' => if beq (tr rs) h then bad (S k) l\' else k :: bad (S k) l\' end.\n'
                  'Eval vm_compute in bad 0%nat cases.\n')
         files.append(('C13_cache_%03d' % (n // per), body, chunk))
-    res = ctx.coq_eval_many([(f[0], f[1]) for f in files], timeout=900)
+    res = eval_many(ctx, [(f[0], f[1]) for f in files], timeout=900)
     for (name, ok_, out), f in zip(res, files):
         ctx.obligations += 1
         ctx.checker_cmds.append('cd coq && coqc -R . Verif gen/%s.v' % name)
@@ -724,6 +741,107 @@ def cache_sequences(ctx, specs, results, tr_ok):
             ctx.report('tie:cache-trace', 'model trace differs from the implementation (misses %s) on %s'
                        % ([ob.get('miss') for ob in obs], [[good[i][0]['code'], o_] for i, o_ in q]),
                        {'sequence': [[good[i][0]['code'], o_] for i, o_ in q], 'observed': obs}, found_input=False)
+
+
+def histories(ctx, specs, results, tr):
+    """add()/hash()/compile_vform() histories on form objects: the memoised hash must never be stale."""
+    thorough = ctx.tier == 'thorough'
+    hs = F.history_specs(ctx.rng, thorough)
+    good = {s['id']: (s, r) for s, r in zip(specs, results) if r['status'] == 'Ok'}
+    seeds = [s for s in specs if s.get('shipped') and s['id'] in good]
+    shipped_code = {s['shipped']: good[s['id']][1]['code']['0'] for s in seeds}
+    nproc = 4
+    parts = [hs[i::nproc] for i in range(nproc)]
+    with ThreadPoolExecutor(max_workers=nproc) as ex:
+        outs = list(ex.map(lambda p: ctx.impl.run(DRIVER, {'mode': 'history', 'histories': p}, timeout=1500), parts))
+    cases = []
+    for p, o in zip(parts, outs):
+        for h, r in zip(p, o['histories']):
+            cases.append((h, r))
+    dist = {}
+    for h, r in cases:
+        dist[h['kind']] = dist.get(h['kind'], 0) + 1
+        ctx.count(('history', json.dumps(h['ops']), h['dim'], len(h['objects'])), nontrivial=True)
+        hashed = set()
+        for k, (op, ob) in enumerate(zip(h['ops'], r['observed'])):
+            bad = None
+            if ob['res'].startswith('err'):
+                bad = ('impl:history-error', 'a step of a valid history failed with %s (%s)' % (ob['res'], ob.get('msg')))
+            elif op[0] == 'hash' and ob['hash'] != ob['fresh']:
+                bad = ('impl:stale-hash-after-add', 'vf.hash() returns a value memoised before the form was extended: it differs from the hash of a '
+                       'form built from scratch with the same add() calls')
+            elif op[0] == 'compile' and ob['res'] == 'class':
+                got = ob.get('src') or (shipped_code.get(ob.get('shipped')) if not op[2] else 'shipped-class-for-on-demand-request') or str(ob)
+                if got != ob['want'] and not (got != ob['want'] and 'src' in ob and False):
+                    bad = ('impl:stale-hash-after-add' if len(ob['adds']) > 1 else 'impl:history-returns-other-form',
+                           'compile_vform returned %s for an object whose content is %s (on_demand=%s): not the source a form built from '
+                           'scratch with the same add() calls generates' % (ob.get('shipped') or ('source ' + str(ob.get('src'))), ob['adds'], bool(op[2])))
+            elif op[0] == 'compile' and ob['res'] == 'raise' and not ob['want'].startswith('ERR') and 'finalized' not in ob.get('msg', ''):
+                bad = ('impl:history-compile-raises', 'compile_vform raised %s for a valid form' % ob.get('msg'))
+            if bad and not already_reported(ctx, bad[0]):
+                ctx.report(bad[0], bad[1] + '; history: ' + '; '.join('%s(%s)' % (o_[0], ', '.join(str(x) for x in o_[1:])) for o_ in h['ops'][:k + 1]),
+                           {'history': h, 'step': k, 'observed': [{kk: vv for kk, vv in x.items() if kk != 'node'} for x in r['observed']],
+                            'how': 'fresh process, compile_cython_module stubbed; per object exec `objects[i]`, then the ops in order on V; '
+                                   'oracle = a form built from scratch with the accepted add() calls'})
+    ctx.cov['histories'] = len(cases)
+    ctx.cov['history_kinds'] = dist
+    if tr is None or any(s['id'] not in good or good[s['id']][1].get('tree') is None for s in specs if s.get('shipped')):
+        return
+    # model trace against the implementation's
+    code = {'ok': 0, 'raise': 1, 'hashed': 2}
+    files = []
+    per = 40
+    for n in range(0, len(cases), per):
+        chunk = [c for c in cases[n:n + per] if not any(ob['res'].startswith('err') for ob in c[1]['observed'])]
+        em = new_emitter()
+        try:
+            seedforms = [c_form(good[s['id']][1]['tree']) for s in seeds]
+            rows = []
+            for h, r in chunk:
+                objs = clist('mk_obj %s None false' % c_form(b) for b in r['bases'])
+                ops, exp = [], []
+                for op, ob in zip(h['ops'], r['observed']):
+                    if op[0] == 'add':
+                        ops.append('OAdd %d%%nat %s' % (op[1], c_node(ob['node'])))
+                        exp.append(code[ob['res']])
+                    elif op[0] == 'hash':
+                        ops.append('OHash %d%%nat' % op[1])
+                        exp.append(2)
+                    else:
+                        ops.append('OCompile %d%%nat %s' % (op[1], c_bool(op[2])))
+                        exp.append(1 if ob['res'] == 'raise' else (4 if ob['miss'] else 3))
+                rows.append('(%s, %s, %s)' % (objs, clist(ops), clist('%d%%nat' % x for x in exp)))
+        except ValueError:
+            continue
+        body = CASE_HEADER + em.text()
+        body += 'Definition seed : list ((form * bool) * unit) := %s.\n' % clist('((%s, false), tt)' % f for f in seedforms)
+        body += ('Definition st0 := preseed _ _ _ (keyof1 current_table) seed.\n'
+                 'Definition oc (r : outcome unit) : nat := match r with RAdded => 0 | RRaised => 1 | RHashed _ => 2 | RClass true _ => 3 | RClass false _ => 4 end%nat.\n'
+                 'Definition model (objs : list obj) (ops : list op) : list nat :=\n'
+                 '  map oc (hrun gen_add_guard current_table unit (fun _ _ => tt) (st0, objs) ops).\n'
+                 'Fixpoint neqb (a b : list nat) : bool := match a, b with [], [] => true | x :: a\', y :: b\' => Nat.eqb x y && neqb a\' b\' | _, _ => false end.\n')
+        body += 'Definition cases : list (list obj * list op * list nat) := [\n' + ';\n'.join(rows) + '].\n'
+        body += ('Fixpoint bad (k : nat) (l : list (list obj * list op * list nat)) : list nat :=\n'
+                 '  match l with [] => [] | (objs, ops, e) :: l\' => if neqb (model objs ops) e then bad (S k) l\' else k :: bad (S k) l\' end.\n'
+                 'Eval vm_compute in bad 0%nat cases.\n')
+        files.append(('C13_hist_%03d' % (n // per), body, chunk))
+    res = eval_many(ctx, [(f[0], f[1]) for f in files], timeout=900)
+    for (name, ok_, out), f in zip(res, files):
+        ctx.obligations += 1
+        ctx.checker_cmds.append('cd coq && coqc -R . Verif gen/%s.v' % name)
+        bad = parse_coq_list_of_nat(out) if ok_ else None
+        if bad is None:
+            ctx.broken.append('case file %s did not evaluate: %s' % (name, out[-400:]))
+            continue
+        ctx.discharged += 1
+        ctx.cov['traces_validated_against_impl'] += len(f[2])
+        for b in bad[:2]:
+            h, r = f[2][b]
+            ctx.cov['disagreements_checked'] += 1
+            ctx.broken.append('history model and implementation disagree on the outcomes of an add/hash/compile history')
+            ctx.report('tie:history-trace', 'model outcomes differ from the implementation (%s) on %s'
+                       % ([(ob['res'], ob.get('miss')) for ob in r['observed']], h['ops']),
+                       {'history': h, 'observed': [{kk: vv for kk, vv in x.items() if kk != 'node'} for x in r['observed']]}, found_input=False)
 
 
 def freshness(ctx):
@@ -828,7 +946,7 @@ def freshness(ctx):
     # self-test: a run with two dependent statements exchanged must be rejected
     dep = [('a = 1', ['a'], []), ('b = a', ['b'], ['a'])]
     files.append(('C13_fresh_selftest', coq_runs([(dep, dep[::-1]), (dep, dep)]), 'selftest', '-', []))
-    res = ctx.coq_eval_many([(f[0], f[1]) for f in files], timeout=900)
+    res = eval_many(ctx, [(f[0], f[1]) for f in files], timeout=900)
     for (name, ok_, out), f in zip(res, files):
         bad = parse_coq_list_of_nat(out) if ok_ else None
         if f[2] == 'selftest':
@@ -950,10 +1068,14 @@ def run(ctx):
         if r['status'] == 'Ok' and s['mut'] != 'base':
             ctx.sample({'spec': s['code'], 'mutated': s['mut'], 'hash': r['hash'], 'code_sha': r['code']}, limit=3)
     if tr is not None:
+        COARSE.clear()
+        COARSE.update('%s.%s' % (cn, a) for cn, c in tr['expr_classes'].items() for a, e in c['key'] if e == 'EOther')
         tie_keys(ctx, [x[0] for x in recs], [x[1] for x in recs])
     tick(ctx, 'key tie done')
     cache_sequences(ctx, specs, results, tr)
     tick(ctx, 'cache sequences done')
+    histories(ctx, specs, results, tr)
+    tick(ctx, 'histories done')
     freshness(ctx)
     tick(ctx, 'freshness done')
     if thorough:
